@@ -14,7 +14,8 @@
 EXTENDS L2Env
 
 FsInit(c) == [st |-> [i \in 0..(c.n - 1) |-> "P"], complete |-> 0, offset |-> 0, order |-> <<>>]
-Init == \E c \in Cfgs : InitEnv(c, c.n, FsInit(c))
+InitFor(c) == InitEnv(c, c.n, FsInit(c))
+Init == \E c \in Cfgs : InitFor(c)
 
 Rotated(off) == [k \in 1..N |-> (k - 1 + off) % N]
 
